@@ -172,13 +172,13 @@ type Field struct {
 }
 
 type Func struct {
-	Name    string
-	Oneway  bool
-	Ret     *Type // nil = void
-	Args    []*Field
-	Throws  []*Field
+	Name      string
+	Oneway    bool
+	Ret       *Type // nil = void
+	Args      []*Field
+	Throws    []*Field
 	HasThrows bool // "throws (...)" written (possibly empty)
-	Annos   []Anno
+	Annos     []Anno
 }
 
 // Type is a written type expression.
@@ -237,19 +237,19 @@ const (
 
 // Value is a written constant value together with what it denotes.
 type Value struct {
-	Kind VKind
-	Int  int64
+	Kind        VKind
+	Int         int64
 	IntSpelling int // 0 decimal, 1 hex, 2 octal, 3 explicit plus sign
-	Dbl  float64
-	DblText string // the spelling of a double
-	Lit  Lit
+	Dbl         float64
+	DblText     string // the spelling of a double
+	Lit         Lit
 	// identifier
-	Ident     string // full text as written
-	RefConst  *Def   // names a constant
-	RefEnum   *Def   // names an enum value: the enum ...
-	RefVal    string // ... and its member
-	Via       *Def   // the enum was named through this typedef (nil if named directly)
-	IsBoolKw  bool   // true / false
-	List []*Value
-	Keys []*Value // map keys (parallel to List = map values)
+	Ident    string // full text as written
+	RefConst *Def   // names a constant
+	RefEnum  *Def   // names an enum value: the enum ...
+	RefVal   string // ... and its member
+	Via      *Def   // the enum was named through this typedef (nil if named directly)
+	IsBoolKw bool   // true / false
+	List     []*Value
+	Keys     []*Value // map keys (parallel to List = map values)
 }
